@@ -25,7 +25,18 @@ GNext == /\ Len(hist) < LEN
 GView == IF MODE = "cover"
          THEN <<PresentPairs(reg), IF hist = <<>> THEN <<>> ELSE <<hist[Len(hist)].op, hist[Len(hist)].p, hist[Len(hist)].i>>>>
          ELSE <<hist>>
+(* the naming a history is replayed under: spread over Namings by a weight of the history (every naming is used by
+   about a sixth of the histories, and histories that differ in one operation get different namings) *)
+PathIdx(q) == CASE q = "/" -> 0 [] q = "/a" -> 1 [] q = "/a/b" -> 2 [] OTHER -> 3
+IfIdx(i)   == CASE i = "I1" -> 0 [] i = "I2" -> 1 [] OTHER -> 2
+RECURSIVE Weight(_)
+Weight(h) == IF h = <<>> THEN 0
+             ELSE LET o == h[Len(h)] IN Weight(SubSeq(h, 1, Len(h) - 1)) + Len(h) * (PathIdx(o.p) + 1) + IfIdx(o.i)
+                                         + (IF o.op = "at" THEN 0 ELSE 3)
+NamingOf(h) == Namings[1 + (Weight(h) % Len(Namings))]
+ASSUME \A k \in 1..Len(Namings) : NamingOk(Namings[k])
+
 Emit == \/ (MODE = "all" /\ Len(hist) # LEN)
         \/ hist = <<>>
-        \/ PrintT(<<"CASE", ToJson([ops |-> hist])>>)
+        \/ PrintT(<<"CASE", ToJson([ops |-> hist, names |-> NamingOf(hist)])>>)
 =============================================================================
